@@ -264,10 +264,15 @@ LEVEL_TEXT = ("Machine-checked Lean 4 theorems over an executable model of JUnit
               "field encoded; the suite states the true numbers of tests and failed tests, there is one testcase element per test in run "
               "order with name, file and line, a skipped marker exactly for ignored tests and a failure element (first failure) exactly "
               "for failed tests; the file name is the sanitised cpputest_[package_]group.xml. The real code's files are compared byte "
-              "for byte with the model on generated registries, read by an independent Lean report reader and parsed by Python's expat.")
+              "for byte with the model on generated registries, read by an independent Lean report reader and parsed by Python's expat. Proved for the "
+              "whole document as well: the specification's tokenizer and layout reader accept the rendering of every well-formed structured "
+              "report (all byte strings as values) and return exactly that report, hence every file of every run is read back into the "
+              "fields it was written from. Stated as theorems, not violations: two groups share a file name exactly when their sanitised "
+              "names agree; the captured output accumulates over the groups of a run; a group none of whose tests runs is reported as "
+              "cpputest_[package_].xml with an empty suite.")
 LEVEL_NOTE = ("Trusted: Lean kernel; the hand-written collector/writer/runner model (validated against the code by the correspondence of "
               "this run); the extractor of the tables; SimpleString::replace = Text.replaceAll (C13); expat. Well-formedness of the whole "
-              "file for all inputs is proved as: template + per-field safety and round trip lemmas, and judged by expat on the generated "
-              "runs; a general XML grammar is not formalised. Outside the quantifier: control bytes other than CR/LF, bytes >= 0x80.")
+              "file for all inputs is proved against the specification's own reader (a small XML subset: declaration, tags with quoted "
+              "attributes, references, text) and judged by expat on the generated runs; the full XML grammar is not formalised. Outside the quantifier: control bytes other than CR/LF, bytes >= 0x80.")
 TECHNIQUE = ("Lean 4 proofs (replace-chain = per-byte map over a regenerated table, reference round trip, collector/runner induction) "
              "+ differential correspondence harness on the written files + expat as independent judge")
